@@ -135,11 +135,11 @@ pub fn make_violation(property: &str, run: u64, forms: &[Sx], case: &Case, class
                 _ => false,
             }
         },
-        1500,
+        500,
     );
     // drop the schedule and knobs if they do not matter
     let mut min_case = case.clone();
-    for simplify in 0..3 {
+    for simplify in 0..(if crate::report::minimise_on() { 3 } else { 0 }) {
         let mut c = min_case.clone();
         match simplify {
             0 => {
@@ -315,4 +315,8 @@ pub fn debug_one(seed: u64, run: u64) {
     std::env::set_var("VERIF_SHRINK_TRACE", "1");
     let r = one_run(seed, run);
     eprintln!("  compared={} discarded={:?} violation={:?}", r.forms_compared, r.discarded, r.violation.map(|v| v.signature));
+}
+
+pub fn rerun(_tier: Tier, seed: u64, run: u64) -> Option<Violation> {
+    one_run(seed, run).violation
 }
